@@ -101,6 +101,14 @@ def kinds():
             evs += ["acc", f"rx {i} " + nodegen.cer("peer1.x", "4", n(), n()), f"eof {i}"]
         return evs + ["tick"]
 
+    def conn_req_answered(N):
+        # N connections, each carrying one request that the application answers before the connection ends
+        evs = ["start fail"]
+        for i in range(N):
+            evs += ["acc", f"rx {i} " + nodegen.cer("peer1.x", "4", n(), n()), f"rx {i} " + nodegen.ccr(n(), n(), "peer1.x"),
+                    f"ans 0 {i} 2001", f"eof {i}"]
+        return evs + ["tick"]
+
     def conn_node_closes(N):
         evs = ["start fail"]
         for i in range(N):
@@ -151,7 +159,7 @@ def kinds():
 
     return {"inbound_req": inbound_req, "inbound_req_norc": inbound_req_norc, "hard_write_error": hard_write_error,
             "rejected_req": rejected_req, "dup_reject": dup_reject, "dwr_in": dwr_in, "dwr_out": dwr_out,
-            "outbound_req": outbound_req, "outbound_req_timeout": outbound_req_timeout, "conn_ok": conn_ok, "conn_node_closes": conn_node_closes, "conn_unknown": conn_unknown,
+            "outbound_req": outbound_req, "outbound_req_timeout": outbound_req_timeout, "conn_ok": conn_ok, "conn_req_answered": conn_req_answered, "conn_node_closes": conn_node_closes, "conn_unknown": conn_unknown,
             "conn_timeout": conn_timeout, "conn_already": conn_already, "dial_refused": dial_refused,
             "dial_async_fail": dial_async_fail, "dial_rejected": dial_rejected, "dial_established": dial_established}
 
@@ -192,7 +200,7 @@ def run(res: Result, tier: str, seed: int):
     for name, rows in by_kind.items():
         N0, s0, r0, _ = rows[0]
         for N, s, rr, line in rows[1:]:
-            grow = [k for k in ("conns", "socks", "sockPeers", "half", "appW", "peerW", "origW", "ansW") if s.get(k) != s0.get(k)]
+            grow = [k for k in ("conns", "socks", "sockPeers", "half", "appW", "peerW", "peerWc", "origW", "ansW") if s.get(k) != s0.get(k)]
             grow += [k for k in ("socketsOpen", "workersLive") if rr.get(k) != r0.get(k)]
             if grow:
                 fails.append({"what": f"retained state grows with the number of completed '{name}' transactions / attempts: "
